@@ -99,6 +99,9 @@ request_module(InterrogateModuleDef *def) {
  */
 bool InterrogateDatabase::
 get_error_flag() {
+  // Databases are read lazily; read the requested ones now, or a problem with
+  // them would not be known yet.
+  check_latest();
   return _error_flag;
 }
 
